@@ -1,8 +1,23 @@
+import CharsetProof.Lemmas.Chaos
 import CharsetProof.Lemmas.EntryFacts
+import CharsetProof.Lemmas.F32
+import CharsetProof.Lemmas.Md
 import CharsetProof.Lemmas.SortPerm
 import CharsetProof.Props.C04
 import CharsetProof.Props.C04b
+import CharsetProof.Props.C04c
 open Charset
+#print axioms C04_chaos_range
+#print axioms C04_chaos_range_md
+#print axioms C04_mess_ratio_nonneg
+#print axioms worldMd_mess_ok
+#print axioms C04_md_flags_covered
+#print axioms Md.messRatio_ok
+#print axioms meanRatio_ok
+#print axioms probeChunks_len
+#print axioms Fl.ok_div
+#print axioms Fl.ofNat32_pos
+#print axioms Fl.ofNat32_lt_inf
 #print axioms C04_valid_utf8_nonempty
 #print axioms C04_valid_utf8_current
 #print axioms probe_utf8_valid
